@@ -53,9 +53,9 @@ func S[T any](ch chan<- T) Tx[T] {
 	return Tx[T]{s.chanFor(chanPtr(ch), cap(ch))}
 }
 
-func (r Rx[T]) Case() Case       { return Case{dir: dirRecv, ch: r.c} }
-func (t Tx[T]) Case(v T) Case    { return Case{dir: dirSend, ch: t.c, val: v} }
-func (r Rx[T]) Val(x Sel) T      { v, _ := x.val.(T); return v }
+func (r Rx[T]) Case() Case           { return Case{dir: dirRecv, ch: r.c} }
+func (t Tx[T]) Case(v T) Case        { return Case{dir: dirSend, ch: t.c, val: v} }
+func (r Rx[T]) Val(x Sel) T          { v, _ := x.val.(T); return v }
 func (r Rx[T]) Val2(x Sel) (T, bool) { v, _ := x.val.(T); return v, x.ok }
 
 // Sel is the outcome of a select.
